@@ -40,12 +40,13 @@ def run(tier, seed):
     ck = Check('C09', tier, seed)
     ck.cov['explanation'] = ('The solver half (an unimplemented demanded line prevents success) is the C01 theorem; Gates.gate_sound proves that a line which '
                              'consults a gate first and refuses yields not-implemented on every store; C09_every_reader_refuses_<y> covers the gates ALL of '
-                             'whose reading lines have that shape; the remaining gates are decided by flipping them to yes on real-form scenarios that read them.')
+                             'whose reading lines have that shape; StoreMono.line_value_mono (store monotonicity of the whole interpreter) lifts a refusal computed in the kernel on the store that holds only the gate to EVERY store '
+                             '(C09_refusal_on_every_store_<y>, any shape of reader, helper functions included); the remaining gates are decided by flipping them to yes on real-form scenarios that read them.')
     rng = random.Random(seed + 9)
     ck.rule = ('case = (year, gate input, real-form scenario that reads it) with the gate flipped to yes, plus numeric-gate scenarios; '
                'obligation = (year, gate, reading line) classified in the kernel; non-trivial = scenario whose baseline (gate = no) solves')
     ck.trusted = ['Coq 8.16.1 kernel + vm_compute', 'tools/gen_forms.py (validated)', 'oracles/gates_<year>.json (frozen, curated)',
-                  'monotonicity of the interpreter in the stores is argued (a finished evaluation consulted only the names present), not proved',
+                  'monotonicity of the interpreter in the stores is a theorem (StoreMono.line_value_mono: a value or a refusal survives every enlargement of the stores)',
                   'path-dependent gates (something else is consulted before the gate) are decided by the flipped-gate runs only']
     sf.compile_props(ck, 'C01')
     H = scenarios.habutax_modules()
@@ -70,6 +71,8 @@ def run(tier, seed):
         files.append((y, meta, ck.write_gen('C09_cls_%d.v' % y, '\n'.join(txt) + '\n')))
     res = ck.coqc_many([f for _, _, f in files], timeout=600)
     thm_files = []
+    every_files = []
+    mono_now = {}
     classes = {}
     for y, meta, f in files:
         ok, out = res[f]
@@ -101,6 +104,40 @@ def run(tier, seed):
                'Proof. vm_compute. reflexivity. Qed.',
                'Goal True. idtac "@@PA C09_immediate_gates_%d". Abort.' % y, 'Print Assumptions C09_immediate_gates_%d.' % y]
         thm_files.append((y, len(rows), ck.write_gen('C09_%d.v' % y, '\n'.join(txt) + '\n')))
+        # store monotonicity (StoreMono.v): a refusal computed on the store holding ONLY the affirmative gate is a refusal on EVERY store;
+        # over all (reader, gate) pairs of singleton forms, whatever the syntactic shape of the reader (helper functions, statements before the gate)
+        numbered = {n[len('number_'):] for n in summ[y]['forms'].get('1040', {}).get('inputs', {}) if n.startswith('number_')}
+        single = lambda fn: fn not in numbered and not summ[y]['forms'][fn].get('valid_instances')  # noqa
+        erows_meta = [(g, fn, ln) for (g, fn, ln) in meta if single(fn)]
+        erows = ['(%s, %s, %s)' % (gen_forms.cstr(fn), gen_forms.cstr(ln), gen_forms.cstr(g)) for (g, fn, ln) in erows_meta]
+        etxt = [catalog.HEADER % {'y': y}, 'From HV Require Import StoreMono.',
+                'Definition rows : list (string * string * string) := %s.' % gen_forms.clist(erows),
+                'Definition refuses (r:string * string * string) : bool := gate_refuses cat (tax_fn %d cfg) (fst (fst r)) (snd (fst r)) (snd r).' % y,
+                'Definition urows := filter refuses rows.',
+                'Goal True. idtac "@@UROWS". Abort.', 'Eval vm_compute in map refuses rows.',
+                'Theorem C09_refusal_on_every_store_%d : forall fn ln g, In (fn, ln, g) urows -> refuses_everywhere cat (tax_fn %d cfg) fn ln g.' % (y, y),
+                'Proof. apply gate_rows_sound. exact (forallb_filter _ refuses rows). Qed.',
+                'Goal True. idtac "@@PA C09_refusal_on_every_store_%d". Abort.' % y, 'Print Assumptions C09_refusal_on_every_store_%d.' % y]
+        every_files.append((y, erows_meta, ck.write_gen('C09_everywhere_%d.v' % y, '\n'.join(etxt) + '\n')))
+    res_e = ck.coqc_many([f for _, _, f in every_files], timeout=900)
+    for y, emeta, f in every_files:
+        ok, out = res_e[f]
+        ck.harvest_assumptions(out)
+        flags = re.findall(r'\b(true|false)\b', out.split('@@UROWS', 1)[1].split(': list')[0]) if ok and '@@UROWS' in out else []
+        cov_g, all_g = {}, {}
+        if len(flags) == len(emeta):
+            for (g, fn, ln), fl in zip(emeta, flags):
+                all_g.setdefault(g, []).append((fn, ln))
+                if fl == 'true':
+                    cov_g.setdefault(g, []).append((fn, ln))
+        n_all = {g: len(readers_of(summ[y], g)) for g in all_g}
+        every = sorted(g for g in all_g if len(cov_g.get(g, [])) == n_all[g])
+        ck.cov.setdefault('gate_classes', {}).setdefault(str(y), {})['store monotonicity (theorem C09_refusal_on_every_store): reading lines that refuse on EVERY store with the gate affirmative, whatever their shape'] = {
+            'reader_gate_pairs_covered': sum(len(v) for v in cov_g.values()), 'reader_gate_pairs': len(emeta),
+            'gates_with_every_reader_covered': every}
+        mono_now[y] = {g: sorted('%s.%s' % p for p in v) for g, v in cov_g.items()}
+        ck.oblige('theorem:C09_refusal_on_every_store_%d (%d reader/gate pairs refuse on every store, by StoreMono.line_value_mono)' % (y, sum(len(v) for v in cov_g.values())),
+                  ok and len(flags) == len(emeta) and bool(cov_g), out[-300:] if not ok else '')
     res2 = ck.coqc_many([f for _, _, f in thm_files], timeout=600)
     for y, n, f in thm_files:
         ok, out = res2[f]
